@@ -62,7 +62,25 @@ def make_views(is_async):
         def inherited(self):
             return 'view:inherited'
 
-    class V0(Base):
+    class Mix0:
+        # plain helper classes AFTER ViewMixin in the MRO: their public callables belong to the view like any inherited one
+        def mixed(self):
+            return 'mix0:mixed'
+
+        def _mixpriv(self):
+            return 'mix0:_mixpriv'
+
+    class Mix1:
+        def helper(self):
+            return 'mix1:helper'
+
+        @staticmethod
+        def shelper():
+            return 'mix1:shelper'
+
+        helper_data = 7
+
+    class V0(Base, Mix0):
         data = 5
         names = ['x']
 
@@ -86,7 +104,7 @@ def make_views(is_async):
         def __dd__(self):
             return 'V0.__dd__'
 
-    class V1(pjrpc.server.ViewMixin):
+    class V1(pjrpc.server.ViewMixin, Mix1):
         def pm(self):
             return 'V1.pm'
 
@@ -101,8 +119,9 @@ def make_views(is_async):
     return [V0, V1]
 
 
-VIEW_PUBLIC = [{'pm': 'V0.pm', 'alpha': 'V0.alpha', 'st': 'V0.st', 'cm': 'V0.cm', 'inherited': 'view:inherited'}, {'pm': 'V1.pm'}]
-VIEW_PRIVATE = ['_priv', '__dd__', 'data', 'names', '_hidden', '__init__', '__methods__', '__class__', '__dict__', '__doc__']
+VIEW_PUBLIC = [{'pm': 'V0.pm', 'alpha': 'V0.alpha', 'st': 'V0.st', 'cm': 'V0.cm', 'inherited': 'view:inherited', 'mixed': 'mix0:mixed'},
+               {'pm': 'V1.pm', 'helper': 'mix1:helper', 'shelper': 'mix1:shelper'}]
+VIEW_PRIVATE = ['_priv', '__dd__', 'data', 'names', '_hidden', '_mixpriv', 'helper_data', '__init__', '__methods__', '__class__', '__dict__', '__doc__']
 
 
 def join(*parts):
